@@ -960,3 +960,16 @@ fire('C19', 'flow-items-counted-on-the-class', 'C19.R6', 'class-attribute-write(
 silent('C19', 'module-level-read-only-table',
        lambda p: {N_SRC: p.modules[N_SRC].src.replace('class Source(Node):', '_STATE_NAMES = ["SETUP_STATE", "GENERATING_STATE", "BLOCKED_STATE"]\n\nclass Source(Node):', 1).replace(
            'if inter_arrival_time == 0 and not self.blocking:', 'if self.state not in _STATE_NAMES:\n            raise ValueError("bad state")\n        if inter_arrival_time == 0 and not self.blocking:', 1)})
+
+# ---- C16.R5: the pallet's own container operations (seed C16-c)
+_PAL = 'helper/pallet.py'
+fire('C16', 'pallet-add-item-skips-marked-items (seed C16-c)', 'C16.R5', 'Pallet.add_item',
+     lambda p: M.insert_before(p, _PAL, 'Pallet.add_item', M.stmt_calling('self.items.append'),
+                               'if getattr(item, "pallet_id", None) == self.id:\n    return\nitem.pallet_id = self.id'))
+fire('C16', 'pallet-add-item-capacity-cap', 'C16.R5', 'Pallet.add_item',
+     lambda p: M.replace_node(p, _PAL, 'Pallet.add_item', M.stmt_calling('self.items.append'), lambda s: 'if len(self.items) < 8:\n    ' + s))
+fire('C16', 'pallet-remove-item-peeks', 'C16.R5', 'Pallet.remove_item',
+     lambda p: M.replace_node(p, _PAL, 'Pallet.remove_item', lambda n: isinstance(n, ast.Assign), sub('self.items.pop(-1)', 'self.items[-1]')))
+silent('C16', 'pallet-add-item-type-checked',
+       lambda p: M.insert_before(p, _PAL, 'Pallet.add_item', M.stmt_calling('self.items.append'),
+                                 'if item is None:\n    raise ValueError("cannot pack nothing")\nif item in self.items:\n    return'))
